@@ -198,7 +198,16 @@ theorem rowRes_exhausts (u : Usage) (amt v1 v2 v3 v4 v5 v6 : Nat)
     (s6 : amt - v1 - v2 - v3 - v4 - v5 - v6 = 0 ∨ u.rpc - v6 = 0) :
     (rowRes u amt v1 v2 v3 v4 v5 v6).rem = 0 ∨ (rowRes u amt v1 v2 v3 v4 v5 v6).left.total6 = 0 := by
   simp only [rowRes, Usage.total6]
-  omega
+  by_cases hr : amt - v1 - v2 - v3 - v4 - v5 - v6 = 0
+  · exact Or.inl hr
+  · -- the row is not exhausted: no remainder on the way was zero, so every category was moved entirely
+    have t1 : u.sto - v1 = 0 := by rcases s1 with h | h <;> omega
+    have t2 : u.ing - v2 = 0 := by rcases s2 with h | h <;> omega
+    have t3 : u.egr - v3 = 0 := by rcases s3 with h | h <;> omega
+    have t4 : u.rr - v4 = 0 := by rcases s4 with h | h <;> omega
+    have t5 : u.rw - v5 = 0 := by rcases s5 with h | h <;> omega
+    have t6 : u.rpc - v6 = 0 := by rcases s6 with h | h <;> omega
+    exact Or.inr (by omega)
 
 theorem distRow_exhausts (u : Usage) (amt : Nat) :
     (distRow u amt).rem = 0 ∨ (distRow u amt).left.total6 = 0 := by
